@@ -5,6 +5,6 @@ cd "$(dirname "$0")"
 export CARGO_NET_OFFLINE=true
 ( cd lean && lake build )
 [ -f harness/Cargo.lock ] || cp /repo/Cargo.lock harness/Cargo.lock
-( cd harness && cargo build --release --offline )
+( cd harness && cargo build --release --offline && cargo build --release --offline --features bg --target-dir target_bg )
 mkdir -p .scratch evidence replays
 echo setup-ok
